@@ -231,6 +231,66 @@ impl Queries {
         }
         Ok(Queries { map })
     }
+
+    /// The four documents are "the introspection query, plus `isOneOf` and / or `specifiedByURL`":
+    /// printed canonically, without those two fields and with the operation name masked, they are
+    /// one and the same document. Some(what differs) otherwise.
+    fn disagreement(&self) -> Option<String> {
+        let norm = |text: &str, name: &str| -> Result<Vec<String>, String> {
+            let doc = graphql_parser::parse_query::<String>(text).map_err(|e| e.to_string())?;
+            // fragment names are masked by their order of definition (the documents name them after the flags)
+            let frags: Vec<String> = doc.definitions.iter().filter_map(|d| if let graphql_parser::query::Definition::Fragment(f) = d { Some(f.name.clone()) } else { None }).collect();
+            Ok(format!("{}", doc)
+                .lines()
+                .map(|l| l.trim().to_string())
+                .filter(|l| !l.is_empty() && l != "isOneOf" && l != "specifiedByURL")
+                .map(|l| {
+                    for (i, f) in frags.iter().enumerate() {
+                        if l == format!("...{}", f) {
+                            return format!("...FRAGMENT{}", i);
+                        }
+                        if let Some(rest) = l.strip_prefix(&format!("fragment {} on ", f)) {
+                            return format!("fragment FRAGMENT{} on {}", i, rest);
+                        }
+                    }
+                    if l.starts_with("query ") {
+                        l.replace(name, "OPERATION")
+                    } else {
+                        l
+                    }
+                })
+                .collect())
+        };
+        let (bt, bn) = &self.map[&(false, false)];
+        let base = match norm(bt, bn) {
+            Ok(b) => b,
+            Err(e) => return Some(format!("the plain introspection document does not parse: {}", e)),
+        };
+        for (k, (text, name)) in &self.map {
+            match norm(text, name) {
+                Err(e) => return Some(format!("the document for is_one_of={} specify_by_url={} does not parse: {}", k.0, k.1, e)),
+                Ok(lines) => {
+                    if lines != base {
+                        let i = lines.iter().zip(&base).position(|(a, b)| a != b).unwrap_or(lines.len().min(base.len()));
+                        return Some(format!(
+                            "the document for is_one_of={} specify_by_url={} ({}) is not the plain introspection query plus the optional fields: line {} reads `{}`, the plain document has `{}`",
+                            k.0,
+                            k.1,
+                            name,
+                            i + 1,
+                            lines.get(i).map(|s| s.as_str()).unwrap_or("<end>"),
+                            base.get(i).map(|s| s.as_str()).unwrap_or("<end>")
+                        ));
+                    }
+                    let has = |f: &str| format!("{}", graphql_parser::parse_query::<String>(text).unwrap()).lines().any(|l| l.trim() == f);
+                    if has("isOneOf") != k.0 || has("specifiedByURL") != k.1 {
+                        return Some(format!("the document for is_one_of={} specify_by_url={} ({}) selects isOneOf: {}, specifiedByURL: {}", k.0, k.1, name, has("isOneOf"), has("specifiedByURL")));
+                    }
+                }
+            }
+        }
+        None
+    }
 }
 
 // ---------------------------------------------------------------------------------------------
@@ -284,13 +344,17 @@ fn gen_header_arg(t: &mut Tape, valid: bool) -> String {
     let n = gen_header_name(t);
     let v = gen_header_value(t);
     if valid {
-        match t.weighted(&[30, 20, 15, 10, 10, 15]) {
+        match t.weighted(&[28, 18, 13, 9, 9, 13, 4, 3, 3]) {
             0 => format!("{}: {}", n, v),
             1 => format!("{}:{}", n, v),
             2 => format!(" {} : {} ", n, v),
             3 => format!("{}:\t{}", n, v),
             4 => format!("{}: {}\t", n, v),
-            _ => format!("  {}:{}  ", n, v),
+            5 => format!("  {}:{}  ", n, v),
+            // "trimmed" is Rust's `trim`: the line ending a `$(cat token.txt)` drags along, a form feed, a no-break or em space
+            6 => format!("{}: {}{}", n, v, t.pick(&["\r\n", "\n", "\r"])),
+            7 => format!("{}:\u{a0}{}\u{2003}", n, v),
+            _ => format!("\u{c}{}: {}\u{c}", n, v),
         }
     } else {
         let n2 = gen_header_name(t);
@@ -1158,6 +1222,13 @@ fn route(report: &mut Report, ctx: &Ctx, case: &Case, obs: &Obs, fails: &[Fail],
 }
 
 fn replay_one(report: &mut Report, ctx: &Ctx, v: &Value) {
+    if v["mode"] == "documents" {
+        report.evaluations += 1;
+        if let Some(what) = ctx.queries.disagreement() {
+            report.violation("replay-documents", &format!("replayed: introspection documents: {}", what), v.clone());
+        }
+        return;
+    }
     let case = match case_from_json(v) {
         Some(c) => c,
         None => {
@@ -1183,7 +1254,7 @@ fn replay_one(report: &mut Report, ctx: &Ctx, v: &Value) {
 }
 
 pub fn run(report: &mut Report, replay: Option<&Value>) {
-    report.rule = "cases: tape-decoded (argument vector over --is-one-of / --specify-by-url / --authorization / 0..4 --header strings of valid and invalid shapes / --output or stdout, pre-existing output file or none, model schema served as {\"data\":{\"__schema\":..}}, server script: status 200/201/202/300/303/307 (no Location)/400/401/404/500/503 x body served JSON | other JSON | garbage | empty x framing content-length | close-delimited | chunked x reply cut inside headers or body | close on accept | close after request | connection refused). One CLI run per case against a recording loopback endpoint. Non-trivial: all --header strings valid AND ((the script must make the CLI fail AND --output names an existing file) OR (>= 2 custom headers AND --authorization)); distinct by hash(argument vector, script, served schema, pre-existing content).".into();
+    report.rule = "cases: tape-decoded (argument vector over --is-one-of / --specify-by-url / --authorization / 0..4 --header strings of valid and invalid shapes / --output or stdout, pre-existing output file or none, model schema served as {\"data\":{\"__schema\":..}}, server script: status 200/201/202/300/303/307 (no Location)/400/401/404/500/503 x body served JSON | other JSON | garbage | empty x framing content-length | close-delimited | chunked x reply cut inside headers or body | close on accept | close after request | connection refused). One CLI run per case against a recording loopback endpoint; once per run, the four introspection documents are compared with each other (canonical print, optional fields and operation name masked). Non-trivial: all --header strings valid AND ((the script must make the CLI fail AND --output names an existing file) OR (>= 2 custom headers AND --authorization)); distinct by hash(argument vector, script, served schema, pre-existing content).".into();
     report.assumptions = vec![
         "plain HTTP over loopback only: TLS and --no-ssl are not exercised (no certificates in the sandbox)".into(),
         "header names are drawn from [A-Za-z0-9-] (never a name the HTTP stack sets itself), values from visible ASCII with inner blanks, tokens from [A-Za-z0-9._~+/-]+=*".into(),
@@ -1202,6 +1273,11 @@ pub fn run(report: &mut Report, replay: Option<&Value>) {
     if let Some(v) = replay {
         replay_one(report, &ctx, v);
         return;
+    }
+    // the request clause, document side: what the flags select is the introspection query plus exactly the chosen fields
+    report.evaluations += 1;
+    if let Some(what) = ctx.queries.disagreement() {
+        report.failure(None, "c20:introspection-documents", &format!("introspection documents: {}", what), || json!({"engine": "e3", "mode": "documents", "observed": what}));
     }
     super::replay_corpus(report, &|r, v| replay_one(r, &ctx, v));
 
